@@ -90,6 +90,15 @@ CHECKS = {
          "both tables' labels, Snowfall's isin filter and recording-by-group for all shapes in the box, plus a direct oracle.",
     ref="6 C16", technique="Rocq proof (counting lemmas + finite case analysis) + exhaustive-small correspondence by vm_compute",
     note=TB % "c16" + "pandas .loc/isin/melt semantics modelled by `relabel`/`filter_vials`; Snowfall run sequentially with Nrep=2."),
+ "C17": dict(
+    cat="proof",
+    text="Tables modelled as lists of rows that name the source of their value (model/Tables.v); theorems (props/C17.v, axiom-free) for all sizes: the statistics table has exactly 3N rows and "
+         "holds each (vial, statistic) pair exactly once at position jN+v; the trajectory sub-sampling has stride >= 1 for any run length and requested sample count, the k-th sampled column is "
+         "column k*stride, short runs keep every column; per sampled column the temperature rows of the stored vials precede their ice rows; the Snowfall table has Nrep*N*3 rows with (seed,vial,statistic) "
+         "at i*3N+jN+v; accessors are exactly the stated filters. Tied to the code by cell-by-cell bitwise comparison of every table with stats / the state matrix at the model's positions "
+         "(row order compared in Coq). PARTIAL: pandas' melt/concat/iloc semantics are modelled, not verified.",
+    ref="6 C17", technique="Rocq proof (block-indexing lemmas over flat_map, stride arithmetic) + cell-by-cell table correspondence",
+    note=TB % "c17" + "pandas internals trusted as modelled; group labels are C16's; Snowfall modes sampled."),
  "C18": dict(
     cat="proof",
     text="Model of the recording request (model/Record.v: index lists, substring search of group words in tuple order, 'random'/'uniform' keywords, re.findall digit runs, 10 percent default, "
